@@ -1,10 +1,12 @@
 (* C01 — State is the sequential fold of the reducer chain over accepted actions.
    Statements only; proofs in PipelineProofs.v, WorldInv.v, WorldQueue.v.
-   C01_partial: proved are (1) the chain of one action, (2) that the state is always the latest
-   write-back, (3) that under BlockOnFull every enqueued action is taken exactly once, in order.
-   That the sequence of write-backs is the fold of (1) over the taken actions is checked by the
-   lockstep correspondence and the C01 monitor, not yet stated as a theorem over histories. *)
-From RS Require Import Base Channel Pipeline PipelineProofs Script World Hist WorldProofs WorldInv WorldQueue.
+   Proved: (1) the chain of one action, (2) the state is always the latest write-back, (3) under
+   BlockOnFull every enqueued action is taken exactly once, in order, (4) for programs that do not
+   register reducers or middlewares at run time, the sequence of write-backs is the sequential
+   fold of the per-action pipeline over the taken actions, each starting from the state the
+   previous one left (the first from the initial state). Runtime registration (add_reducer /
+   add_middleware while actions flow) is C07's subject and is decided by engine L. *)
+From RS Require Import Base Channel Pipeline PipelineProofs Script World Hist WorldProofs WorldInv WorldQueue WorldStop WorldFold.
 
 Section C01_pure.
 Context {State Action Eff : Type}.
@@ -52,9 +54,31 @@ Theorem C01_exactly_once_partial : forall reducers mws progs w, reachable cfg re
   cfg_pol cfg = Block ->
   rev (enqs (w_hist w)) = rev (deqs (w_hist w)) ++ acts (q (w_dq w)).
 Proof. intros. apply (block_lossless cfg); [eapply reachable_queue; eauto|assumption]. Qed.
+
+(* the fold: for every schedule of every program without runtime registration, in every reachable
+   world, with ws = the write-backs oldest first: their states are fold_states over their actions
+   (each action's result computed by post_state = the veto decision + the reducer chain, from the
+   state the previous action left; the first from the initial state); the current state is the
+   last of them; and the actions written are exactly the actions taken by the reducer, in order,
+   except possibly the one being processed right now *)
+Theorem C01_fold : forall RS0 MS0 progs w, (length progs <= 100)%nat ->
+  Forall (Forall static_call) progs -> reachable cfg RS0 MS0 progs w ->
+  let ws := rev (writes (w_hist w)) in
+  map snd ws = fold_states cfg RS0 MS0 (cfg_init cfg) (map fst ws) /\
+  w_state w = prev_state (cfg_init cfg) (writes (w_hist w)) /\
+  (rev (deqs (w_hist w)) = map fst ws \/ exists a, rev (deqs (w_hist w)) = map fst ws ++ [a]).
+Proof.
+  intros RS0 MS0 progs w L SP R. pose proof (reachable_fold cfg RS0 MS0 progs w SP R) as I.
+  pose proof (reachable_tids cfg RS0 MS0 progs w L R) as TI.
+  cbn zeta. split; [|split].
+  - apply chain_ok_fold. apply I.
+  - apply I.
+  - apply (taken_vs_written cfg RS0 MS0 w I TI).
+Qed.
 End C01_world.
 
 Print Assumptions C01_chain.
 Print Assumptions C01_action_result.
 Print Assumptions C01_state_is_last_write.
 Print Assumptions C01_exactly_once_partial.
+Print Assumptions C01_fold.
